@@ -28,6 +28,8 @@ from graphtage import matching as gmatch, search as gsearch
 from graphtage.bounds import Range, Infinity
 
 P0 = sched.DEFAULT_PRINTER
+from ..driver import load_findings  # noqa: E402
+KNOWN = {(f["kind"], f["site"]) for f in load_findings() if f["property"] == "C04"}
 
 
 def _finite(x):
@@ -62,7 +64,7 @@ class C04:
                                 "slow items for matcher / search", "clock, streams"],
                   "stubbed": ["tqdm monitor thread (disabled)"]}
     PROBES = ["observed_nested_midrefinement", "abandoned_object_driven", "matcher_session",
-              "search_session", "obs_p_lt_1", "liveness_loop_ran"]
+              "search_session", "search_with_initial_bounds", "obs_p_lt_1", "liveness_loop_ran"]
 
     # ------------------------------------------------------------------ generation
     def gen_case(self, seed, tier, index):
@@ -90,7 +92,13 @@ class C04:
             hi = lo + w.choice(spans)
             items.append([lo, hi, w.choice([lo, hi, w.randint(lo, hi)])])
             plans.append([[sc.choice([0, 1, 2, 2, 3]), sc.choice([1, 1, 2, 5])] for _ in range(sc.randint(1, 4))])
-        base.update(rows=rows, cols=cols, items=items, plans=plans,
+        init = None
+        if kind == "search" and w.random() < 0.4:
+            # a sound a-priori interval for the optimum (what PossibleEdits(initial_cost=...) hands to the search)
+            mf = min(it[2] for it in items)
+            init = [None if w.random() < 0.2 else mf - w.choice([0, 0, 1, 3, 20]),
+                    None if w.random() < 0.2 else mf + w.choice([0, 0, 1, 3, 20])]
+        base.update(rows=rows, cols=cols, items=items, plans=plans, init=init,
                     schedule=[[sc.randrange(100), sc.randrange(64)] for _ in range(sc.randint(0, 60))])
         return base
 
@@ -100,6 +108,9 @@ class C04:
         counters = {}
         t0 = SEAMS.clock.elapsed
         mon = sched.Monitor(case["obs_p"], case["obs_seed"], log)
+        if case.get("init") is not None:
+            mon.site_suffix["IterativeTighteningSearch"] = "+initial_bounds"   # a search given an a-priori interval
+        mon.known = KNOWN
         if case["obs_p"] < 1.0:
             counters["probe.obs_p_lt_1"] = 1
         hygiene()
@@ -119,6 +130,9 @@ class C04:
         except Violation as v:
             if mon.violation is None:
                 mon.violation = v
+        except core.OutOfDomain:
+            hygiene()
+            return result(ood=True, digest="ood")
         except Exception as e:
             site = core.graphtage_site(e)
             if "outside-graphtage" in site and not isinstance(e, RecursionError):
@@ -129,6 +143,8 @@ class C04:
                           sim_s=SEAMS.clock.elapsed - t0)
         finally:
             hygiene()
+        if mon.violation is None and mon.known_hit is not None:
+            mon.violation = mon.known_hit     # nothing else went wrong in this session: report the listed finding
         counters["monitored_calls"] = mon.calls
         counters["observations"] = mon.observations
         counters["objects_observed"] = len(mon.objs)
@@ -196,7 +212,16 @@ class C04:
             counters["probe.matcher_session"] = 1
             ops = ["T", "T", "T", "B", "C", "M"]
         else:
-            obj = gsearch.IterativeTighteningSearch(iter(items))
+            init = None
+            if case.get("init") is not None:
+                lo, hi = case["init"]
+                mf = min(it.final for it in items)
+                if (lo is not None and lo > mf) or (hi is not None and hi < mf):
+                    raise core.OutOfDomain("unsound initial bounds")     # can only arise while shrinking
+                from graphtage.bounds import NEGATIVE_INFINITY, POSITIVE_INFINITY
+                init = Range(NEGATIVE_INFINITY if lo is None else lo, POSITIVE_INFINITY if hi is None else hi)
+                counters["probe.search_with_initial_bounds"] = 1
+            obj = gsearch.IterativeTighteningSearch(iter(items), initial_bounds=init)
             counters["probe.search_session"] = 1
             ops = ["T", "T", "T", "B", "G", "M"]
         self._container_obj = obj
